@@ -441,6 +441,50 @@ def gen_rank(rng, N, nmax=5, maxdeg=6):
     return out
 
 
+def gen_rank_special(rng, N):
+    """special divisors (0 <= deg <= 2g-2, where Riemann-Roch does not determine the rank) on small
+    multigraphs of genus >= 3 that carry a g^1_2 (banana graphs, thick triangles, cycles with
+    doubled opposite edges, chains of bundles): small boxes of effective divisors, mostly in
+    optimized mode; Clifford-extremal ranks (r = deg/2) live here"""
+    fams = []
+    for k in (3, 4, 5, 6):
+        fams.append((2, {(0, 1): k}))
+    fams.append((3, {(0, 1): 3, (1, 2): 1, (0, 2): 1}))
+    fams.append((3, {(0, 1): 2, (1, 2): 2, (0, 2): 2}))
+    fams.append((3, {(0, 1): 3, (1, 2): 3}))
+    fams.append((4, {(0, 1): 2, (1, 2): 1, (2, 3): 2, (0, 3): 1}))
+    fams.append((4, {(0, 1): 2, (1, 2): 2, (2, 3): 2}))
+    fams.append((3, {(0, 1): 4, (1, 2): 2}))
+    out = []
+    for _ in range(N):
+        n, E = rng.choice(fams)
+        genus = sum(E.values()) - n + 1
+        hi = rng.choice([2, 3])
+        d = [rng.randint(0, hi) for _ in range(n)]
+        if rng.random() < 0.4:
+            # concentrate an even number of chips: multiples of a g^1_2
+            d = [0] * n
+            k = rng.choice([2, 2, 4])
+            if rng.random() < 0.5:
+                d[rng.randrange(n)] = k
+            else:
+                for _ in range(k):
+                    d[rng.randrange(n)] += 1
+        if rng.random() < 0.15:
+            d[rng.randrange(n)] -= 1
+            d[rng.randrange(n)] += 1
+        while sum(d) > 6:
+            i = rng.randrange(n)
+            if d[i] > 0:
+                d[i] -= 1
+        g = {"n": n, "edges": gen.present_edges(rng, E), "names": gen.gen_names(rng, n), "_kind": "special", "_genus": genus}
+        s = dict(g)
+        s.update(op="rank", deg=d, opt=rng.random() < 0.8, pool="stub", via_r=rng.random() < 0.3,
+                 _band=gen.band_of(sum(d), genus), _debt="none")
+        out.append(s)
+    return out
+
+
 def gen_gonality(rng, N, nmax=5):
     out = []
     for _ in range(N):
